@@ -527,4 +527,23 @@ theorem u32_offsets_exact (c : Cfg) (hv : Valid c) (h32 : c.stop < 2 ^ 32) :
     unfold rowAddr at this
     omega
 
+/-! ## the premises are satisfiable (non-vacuity)
+
+the configuration of the repository's own `flash.rs` tests (write size 8, read size 1) on a 4 KiB range starting at an
+erase-block boundary; a 9-byte data block, a padded parity block and a matrix row each make a call within the contract,
+so `call_legal`, `in_range`, `aligned_writes`, `run_eq_model` and the `u32` theorems apply to them. -/
+
+/-- the test configuration with a 16-byte bit array (`N = 16`, 128 possible rows) -/
+def exCfg : Cfg := { W := 8, R := 1, start := 256, stop := 4352, tailReadLen := 8, N := 16 }
+
+example : Valid exCfg ∧ exCfg.stop < 2 ^ 32 := ⟨⟨by decide, by decide, by decide, by decide⟩, by decide⟩
+example : Call exCfg (newAccs exCfg) := .new (by decide) (by decide) (by decide)
+example : Call exCfg (dataStoreAccs exCfg 3 [1, 2, 3, 4, 5, 6, 7, 8, 9]) := .dataStore 3 _ (by decide) (by decide)
+example : Call exCfg (dataGetAccs exCfg 3 9) := .dataGet 3 9 (by decide) (by decide)
+example : Call exCfg (parityStoreAccs exCfg 2 [1, 2, 3, 4, 5, 6, 7, 8, 9]) := .parityStore 2 _ (by decide)
+example : Call exCfg (parityGetAccs exCfg 2 9) := .parityGet 2 9 (Or.inr rfl) (by decide)
+example : 5 < numRows exCfg := by decide
+example : Call exCfg (rowAccs exCfg 5) := .row 5 (by decide)
+example : Call exCfg (setRowAccs exCfg 5 (List.replicate 16 0)) := .setRow 5 _ (by decide) (by decide)
+
 end Fuota.C16
